@@ -30,6 +30,19 @@ def role_of(fn, op):
             return "count-or-index", e
         if x[0] in ("var", "phi", "cycle", "mutated") and len(x) > 2 and x[-1] in ("id", "group_id", "state", "index", "i"):
             return "count-or-index", e
+    # a counter (starts at a constant, only ever incremented by a constant) counts something, whatever it is called
+    for x in M.walk_expr(e):
+        if x[0] == "phi" and isinstance(x[1], (list, tuple)) and len(x[1]) == 2:
+            kinds = set()
+            for a in x[1]:
+                if a[0] == "const":
+                    kinds.add("init")
+                elif a[0] == "binop" and a[1] in ("Add", "AddWithOverflow") and a[2][0] == "cycle" and a[3][0] == "const":
+                    kinds.add("step")
+                elif a[0] == "field" and a[1][0] == "binop" and a[1][1] in ("Add", "AddWithOverflow") and a[1][2][0] == "cycle" and a[1][3][0] == "const":
+                    kinds.add("step")
+            if kinds == {"init", "step"}:
+                return "count-or-index", e
     for x in M.walk_expr(e):
         if x[0] == "arg":
             return "parameter:%s" % x[2], e
